@@ -173,7 +173,7 @@ Definition good_all (src : srcp) (c : cfg) (x : ist) : bool :=
 Definition mk (ow d t : bool) (r : route) (nh : nat) (ron : bool) (nr : nat) (codes : list Z) (tt : bool) (mx : Z)
               (rf : list rfilter) (sf : list sfilter) (pool : list poolres) : cfg :=
   {| c_oneway := ow; c_data := d; c_trailers := t; c_route := r; c_nhosts := nh; c_retry_on := ron; c_num_retries := nr;
-     c_codes := codes; c_try_timeout := tt; c_max_retries := mx; c_recv := rf; c_send := sf; c_pool := pool; c_delay := []; c_snd_err_hdr := false; c_snd_err_data := false; c_snd_err_trl := false; c_http := false; c_nohost_from := None; c_late_reset := false |}.
+     c_codes := codes; c_try_timeout := tt; c_max_retries := mx; c_recv := rf; c_send := sf; c_pool := pool; c_delay := []; c_snd_err_hdr := false; c_snd_err_data := false; c_snd_err_trl := false; c_http := false; c_nohost_from := None; c_late_reset := false; c_disable_retry := false |}.
 
 Definition req_shapes : list (bool * bool * bool) :=
   [(false, false, false); (false, true, false); (false, true, true); (true, false, false)].
